@@ -55,6 +55,7 @@ def main(argv):
     reach = hooks.Reach(getattr(mod, 'LINE_FUNCS', ()))
     if os.environ.get('TTMON_NO_REACH') != '1':
         reach.start()
+    hooks.REACH = reach
     cases = mod.cases(tier, seed)
     if os.environ.get('TTMON_CASE_LIMIT'):
         cases = cases[:int(os.environ['TTMON_CASE_LIMIT'])]
